@@ -151,24 +151,28 @@ def merge_splits(results):
     return out
 
 
-def cross_check(queries, workdir, cap_s=20):
-    """re-run logged deciding queries through z3 4.8.12 and cvc5; returns summary dict"""
+def cross_check(queries, workdir, cap_s=10, budget_s=90, max_queries=40):
+    """re-run a bounded, evenly spaced sample of the logged deciding queries through z3 4.8.12
+    and cvc5 (one process each, queries separated by (reset)); returns a summary dict"""
     summary = {}
     if not queries:
         return summary
+    if len(queries) > max_queries:
+        step = len(queries) / float(max_queries)
+        queries = [queries[int(i * step)] for i in range(max_queries)]
     solvers = {
         'z3-4.8.12': ['/usr/bin/z3', '-in', '-t:%d' % (cap_s * 1000)],
         'cvc5-1.0': ['/usr/bin/cvc5', '--incremental', '--lang=smt2', '--tlimit-per=%d' % (cap_s * 1000)],
     }
-    for sname, cmd in solvers.items():
-        if not os.path.exists(cmd[0]):
-            continue
+    import threading
+
+    def run_solver(sname, cmd):
         t0 = time.time()
         agree = disagree = errors = unknown = 0
         bad = []
         todo = list(queries)
         rounds = 0
-        while todo and rounds < 30:
+        while todo and rounds < 30 and time.time() - t0 < budget_s:
             rounds += 1
             text = []
             for (label, verdict, smt) in todo:
@@ -176,17 +180,23 @@ def cross_check(queries, workdir, cap_s=20):
                                ('bvurem_i', 'bvurem'), ('bvsmod_i', 'bvsmod')):
                     smt = smt.replace(a_, b_)
                 text.append('(reset)\n(echo "QSTART")\n' + smt + '\n(echo "QEND")\n')
+            out = ''
             try:
-                p = subprocess.run(cmd, input='\n'.join(text).encode(), stdout=subprocess.PIPE,
-                                   stderr=subprocess.STDOUT, timeout=cap_s * len(todo) + 60)
-                out = p.stdout.decode('utf-8', 'replace')
-            except subprocess.TimeoutExpired:
+                p = subprocess.Popen(cmd, stdin=subprocess.PIPE, stdout=subprocess.PIPE, stderr=subprocess.STDOUT)
+                try:
+                    o, _ = p.communicate('\n'.join(text).encode(), timeout=max(5, budget_s - (time.time() - t0)))
+                    out = o.decode('utf-8', 'replace')
+                except subprocess.TimeoutExpired as e:
+                    p.kill()
+                    o, _ = p.communicate()
+                    out = (o or b'').decode('utf-8', 'replace')
+            except Exception:
                 out = ''
             chunks = out.split('QSTART')[1:]
-            if not chunks:
-                unknown += len(todo)
+            complete = [ch for ch in chunks if 'QEND' in ch]
+            if not complete:
                 break
-            for (label, verdict, smt), ch in zip(todo, chunks):
+            for (label, verdict, smt), ch in zip(todo, complete):
                 body = ch.split('QEND')[0]
                 if '(error' in body:
                     errors += 1
@@ -199,11 +209,16 @@ def cross_check(queries, workdir, cap_s=20):
                 else:
                     disagree += 1
                     bad.append(label)
-            todo = todo[len(chunks):]   # a solver that exits on an error is restarted on the rest
-        unknown += len(todo)
-        missing = 0
+            todo = todo[len(complete):]   # a solver that exits on an error is restarted on the rest
         summary[sname] = dict(queries=len(queries), agree=agree, disagree=disagree, error=errors,
-                              unknown=unknown + max(missing, 0), wall_s=round(time.time() - t0, 2), disagree_labels=bad[:5])
+                              unknown=unknown, not_run_within_budget=len(todo),
+                              wall_s=round(time.time() - t0, 2), disagree_labels=bad[:5])
+
+    ths = [threading.Thread(target=run_solver, args=(n, c)) for n, c in solvers.items() if os.path.exists(c[0])]
+    for t in ths:
+        t.start()
+    for t in ths:
+        t.join()
     return summary
 
 
@@ -301,7 +316,7 @@ def do_check(pid, tier, seed, args, workdir, t_start):
     queries = []
     for r in all_results:
         queries += r.pop('queries_log')
-    cc = cross_check(queries[:300], workdir)
+    cc = cross_check(queries, workdir)
     # ---- native replay of violations and reach witnesses
     violations, reach_jobs = [], []
     per_pkg_jobs = {}
